@@ -8,6 +8,14 @@ CHECKS = {
   'C17': dict(text='Bounded symbolic execution of the real offset/immediate codecs: for every format geometry the back ends create and all 2^64 offsets / immediates the SAT solver shows accept<=>representable, decode(field)==value, surrounding bits untouched; AArch64 logical, add/sub, FP8, byte-mask, move-wide and element-index encoders are checked sound and complete against ARM ARM reference decoders.',
               ref='3/C17', note='Formats with no producer in this tree (Thumb/A32) are outside; discarded LSBs bounded to 0..16. ' + TRUST),
 }
+CHECKS.update({
+  'C01': dict(text='Bounded symbolic execution of the real x86::Assembler::_emit with strict validation: per (instruction, operand-kind signature, mode) harness generated from db/isa_x86.json the solver shows that for every register id of every operand class, every base/index/scale/disp32/segment/abs/RIP memory form, every immediate of the form\'s width and every {k}{z}, accepted operands produce bytes that an independent form-directed reference decoder (SDM prefix/REX/VEX/EVEX/ModRM/SIB/disp8*N rules) decodes to exactly that instruction and those operands, with length = cursor advance <= 15. The family (about 10k harnesses) is rotated by seed; each harness verdict is over all operand values.',
+              ref='3/C01', note='Records not generated (implicit operands, APX, x87 st(i), VSIB, broadcast/{er}/{sae} decorations, far pointers, moffs) are counted in checks/C01/forms_gen.json; DB errata against the SDM are listed in gen_forms.py; 16-bit addressing and labels are outside. Known findings D10/D11 are split into companion harnesses. ' + TRUST),
+  'C08': dict(text='Capture then replay is the identity on emitter calls: (a) the real BaseBuilder::_emit stores any id/options/extra register/0..6 arbitrary operands/comment verbatim in one node and clears one-shot state as an assembler does; (b) the real serialize_to replays typed nodes of every kind as the corresponding emitter call with exactly the node fields, in list order (recording destination emitter); (c) each list edit (add_node/add_after/add_before/remove_node/remove_nodes) from well-formed lists of up to 4 nodes yields the edited sequence with symmetric links, right first/last/cursor/active flags, and serialize_to visits exactly it.',
+              ref='3/C08', note='Byte equality of whole programs follows from (a)-(c) plus determinism of the shared back end and is not re-proved; Compiler func/invoke nodes and const-pool nodes are outside; list shapes and operand counts are concrete per harness (values symbolic); Arena replaced by a malloc stub. ' + TRUST),
+  'C14': dict(text='Bounded symbolic execution of the real x86 validator + encoder for representative instructions of the encoding classes with arbitrary input: three operands each symbolic over {none, register of any type and any 32-bit id, memory with every signature bit / base / index / 64-bit offset free, any 64-bit immediate, label with any id}, every defined option bit, arbitrary extra register, in both modes. The solver shows: no UBSan trap, no ASMJIT_ASSERT, no invalid dereference; an error leaves cursor, section size, fixup/relocation/address-table counts untouched, clears one-shot state and reports exactly once; success appends 1..15 bytes.',
+              ref='3/C14', note='Instruction id fixed per harness (32 ids x 2 modes, rotated by seed in quick); operands 4..6 none; throwing error handlers and a64 are outside; CodeHolder fixup/reloc services are counting stubs; known finding D4 (16-byte instruction) is confined to a companion harness. ' + TRUST),
+})
 NOT_APPLICABLE = {
 }
 PENDING = 'solver-based harness not built yet in this round (see DESIGN.md section 3 for the plan)'
